@@ -35,7 +35,7 @@ func init() { core.Register(prop{}) }
 func (prop) ID() string    { return "C11" }
 func (prop) Level() string { return "exploration" }
 func (prop) Rule() string {
-	return "direct: every path string of up to 5 components over {a, b, .., ., '', /} (absolute and relative, exhaustive) plus long/odd samples, from every reachable working directory, through the real RealPath/ChangeDir/Cwd. End-to-end: anonymous login through the real dispatcher, then seeded sequences of up to 5 commands over CWD/CDUP/PWD/MKD/RMD/DELE/RNFR+RNTO/STOR/APPE/RETR/LIST/NLST/MDTM/SIZE with those paths, real passive and active data connections on loopback, a sentinel tree (parent, sibling, sibling whose name has the root's name as prefix) snapshotted before and after. Non-trivial = a path call that resolved / a sequence in which >=1 command was accepted (2xx/1xx) after login; distinct by path string and cwd / command sequence. A sample of the sessions runs under strace -f -e trace=%file: between the marker calls of a session every file-system call on a sandbox path must name the root or something inside it (ancestors of the root may be looked at only). Path arguments include wildcards. Every twelfth sequence runs against a sparse root (one empty directory) with fixed commands that empty the root and then name the root itself (RMD /, DELE /, RMD ., RMD //, renames from and onto /); the root directory must be the same directory after every session."
+	return "direct: every path string of up to 5 components over {a, b, .., ., '', /} (absolute and relative, exhaustive) plus long/odd samples, from every reachable working directory, through the real RealPath/ChangeDir/Cwd. End-to-end: anonymous login through the real dispatcher, then seeded sequences of up to 5 commands over CWD/CDUP/PWD/MKD/RMD/DELE/RNFR+RNTO/STOR/APPE/RETR/LIST/NLST/MDTM/SIZE with those paths, real passive and active data connections on loopback, a sentinel tree (parent, sibling, sibling whose name has the root's name as prefix) snapshotted before and after. Non-trivial = a path call that resolved / a sequence in which >=1 command was accepted (2xx/1xx) after login; distinct by path string and cwd / command sequence. A sample of the sessions runs under strace -f -e trace=%file: between the marker calls of a session every file-system call on a sandbox path must name the root or something inside it (ancestors of the root may be looked at only). Path arguments include wildcards. Every twelfth sequence runs against a sparse root (one empty directory) with fixed commands that empty the root and then name the root itself (RMD /, DELE /, RMD ., RMD //, renames from and onto /); the root directory must be the same directory after every session. STOR!/APPE! in the sparse-root sequences are uploads cut off by a reset of the data connection."
 }
 func (prop) Assumptions() []string {
 	return []string{"the root is created without symlinks leaving it", "containment of RealPath is lexical (path inside root after cleaning)"}
